@@ -293,7 +293,7 @@ Definition smap_eqb (a b : smap) : bool := val_sim (VMap a) (VMap b).
 (* fields compared between the model's reply and the decoded observed bytes. Texts produced by the framework
    itself (timeouts, dispatcher refusals) are not compared, only the code; a TUP payload is an unordered map, its
    length is compared (the Go-side monitor decodes it). *)
-Definition reply_matches (o : origin) (disp_err tup_payload : bool) (m : reply) (obs : bool * reply) : bool :=
+Definition fields_match (o : origin) (disp_err tup_payload : bool) (m : reply) (obs : bool * reply) : bool :=
   let '(shape, p) := obs in
   Bool.eqb shape (is_tup m) &&
   (p_ver p =? p_ver m)%Z && (p_ptype p =? p_ptype m)%Z && (p_id p =? p_id m)%Z && (p_mtype p =? p_mtype m)%Z &&
@@ -302,6 +302,18 @@ Definition reply_matches (o : origin) (disp_err tup_payload : bool) (m : reply) 
         (match o with FromHandler => disp_err || bytes_eqb (p_desc p) (p_desc m) | _ => true end)) &&
   (if is_tup m && tup_payload then (length (p_buf p) =? length (p_buf m))%nat else bytes_eqb (p_buf p) (p_buf m)) &&
   smap_eqb (p_status p) (p_status m) && smap_eqb (p_ctx p) (p_ctx m).
+
+(* the model's reply with the members that are not compared (framework texts, the unordered TUP payload) taken
+   from the observation: its encoding must then be the observed bytes exactly. This ties the model's encoder
+   (reply_bytes: rsp2Byte / req2Byte), which the wire-level theorems are about, to the implementation. *)
+Definition patched (m p : reply) : reply :=
+  {| p_ver := p_ver m; p_ptype := p_ptype m; p_id := p_id m; p_mtype := p_mtype m; p_ret := p_ret m;
+     p_buf := p_buf p; p_status := p_status m; p_desc := p_desc p; p_ctx := p_ctx m |}.
+
+Definition reply_matches (o : origin) (disp_err tup_payload : bool) (m : reply) (obs : (bool * reply) * list N) : bool :=
+  if fields_match o disp_err tup_payload m (fst obs)
+  then bytes_eqb (reply_bytes (patched m (snd (fst obs)))) (snd obs)
+  else false.
 
 Fixpoint take_first {A} (f : A -> bool) (l : list A) : option (list A) :=
   match l with
@@ -322,7 +334,7 @@ Definition is_done (h : hrun) : bool := match h_res h with HDone _ _ _ => true |
    [k_alts]: for a scripted race (handler running for about the handle timeout; own timeout about the queueing
    time) the (queueing time, running time) pairs on either side of the boundary: the observation must agree with
    the model for one of them - the outcomes the schedules theorems allow. Empty otherwise: only the scripted pair. *)
-Fixpoint c10_consume (cfg : config) (reqs : list c10_req) (obs : list (option (bool * reply))) : bool :=
+Fixpoint c10_consume (cfg : config) (reqs : list c10_req) (obs : list (option ((bool * reply) * list N))) : bool :=
   match reqs with
   | [] => match obs with [] => true | _ => false end
   | k :: rest =>
@@ -332,7 +344,7 @@ Fixpoint c10_consume (cfg : config) (reqs : list c10_req) (obs : list (option (b
           existsb (fun qd : N * N =>
             let '(rs, n) := server_step (fun _ => {| h_res := h_res (k_run k); h_dur := snd qd |}) cfg r (fst qd) in
             ((if k_counted k then N.of_nat n else 0) =? k_invoked k) &&
-            (fix go (rs : list (origin * reply)) (obs : list (option (bool * reply))) : bool :=
+            (fix go (rs : list (origin * reply)) (obs : list (option ((bool * reply) * list N))) : bool :=
                match rs with
                | [] => c10_consume cfg rest obs
                | (o, m) :: rs' =>
@@ -348,8 +360,7 @@ Fixpoint c10_consume (cfg : config) (reqs : list c10_req) (obs : list (option (b
   end.
 
 Definition c10_check (c : c10_case) : bool :=
-  c10_consume (k_cfg c) (k_reqs c) (map (fun h => decode_reply (unhex h)) (k_obs c)).
+  c10_consume (k_cfg c) (k_reqs c)
+    (map (fun h => let bs := unhex h in option_map (fun d => (d, bs)) (decode_reply bs)) (k_obs c)).
 Definition c10_mismatches (off : N) (cs : list c10_case) : list N := failing_from c10_check off cs.
 
-(* for non-TUP replies the bytes themselves are determined (maps of at most one entry): exact comparison *)
-Definition c10_bytes_check (p : reply) (h : hexs) : bool := bytes_eqb (reply_bytes p) (unhex h).
